@@ -14,7 +14,8 @@ pub enum Step {
     Chunk(u32),
     /// fail this read call with ErrorKind::Interrupted (must be transparent)
     Interrupted,
-    /// fail this read call with a hard error: 0 = Other, 1 = UnexpectedEof, 2 = BrokenPipe, 3 = PermissionDenied
+    /// fail this read call with a hard error of kind KINDS[k % KINDS.len()] (every kind except
+    /// Interrupted is an error to be returned)
     Error(u8),
 }
 
@@ -26,13 +27,23 @@ pub struct Case {
     pub tail_chunk: u32,
 }
 
+pub const KINDS: [io::ErrorKind; 12] = [
+    io::ErrorKind::Other,
+    io::ErrorKind::UnexpectedEof,
+    io::ErrorKind::BrokenPipe,
+    io::ErrorKind::PermissionDenied,
+    io::ErrorKind::WouldBlock,
+    io::ErrorKind::TimedOut,
+    io::ErrorKind::ConnectionReset,
+    io::ErrorKind::InvalidData,
+    io::ErrorKind::InvalidInput,
+    io::ErrorKind::NotFound,
+    io::ErrorKind::WriteZero,
+    io::ErrorKind::OutOfMemory,
+];
+
 fn kind_of(k: u8) -> io::ErrorKind {
-    match k % 4 {
-        0 => io::ErrorKind::Other,
-        1 => io::ErrorKind::UnexpectedEof,
-        2 => io::ErrorKind::BrokenPipe,
-        _ => io::ErrorKind::PermissionDenied,
-    }
+    KINDS[k as usize % KINDS.len()]
 }
 
 pub struct SchedReader<'a> {
@@ -408,7 +419,7 @@ pub fn check_name(c: &NameCase, obs: &mut Obs) -> Result<(), String> {
 pub fn property() -> Property {
     Property {
         id: "C13",
-        rule: "Byte strings with lengths concentrated on {0,1,55,56,57,63,64,65,111,112,119,120,127,128,129,8191,8192,8193} +-1, patch-like texts (lines with '$NetBSD' markers, almost-markers '$NetBS' / 'NetBSD', markers on a final unterminated line, filler so that a marker straddles offsets 8170-8200 = the BufReader / copy buffer edge), random bytes and patterned data up to 40 KiB, and UTF-8 text. Read schedules: a custom Read delivering generated chunk sizes (1 byte, 1-17, 1-9000, exactly 8192) with Interrupted errors at generated points; the fault stream adds one hard error (Other, UnexpectedEof, BrokenPipe, PermissionDenied) at any point of the sequence. Oracle per algorithm (all six): hash_file(reader) = M-hash(bytes) as lower-case hex of the right length; hash_patch(reader) = M-hash(patch_filter(bytes)); hash_str(s) = the same digest for UTF-8 inputs; when the reader delivered a hard error the result must be Err(Io(that kind)). Enumerated stream: every ASCII case variant of the six names parses to the right algorithm, prints canonically and round-trips; 30 near-miss strings are rejected with Unsupported(input). Non-trivial = (length >= 55 and >= 3 read calls) or a '$NetBSD' marker within 8 bytes of a read boundary or an injected hard error was delivered. Distinct = distinct cases.",
+        rule: "Byte strings with lengths concentrated on {0,1,55,56,57,63,64,65,111,112,119,120,127,128,129,8191,8192,8193} +-1, patch-like texts (lines with '$NetBSD' markers, almost-markers '$NetBS' / 'NetBSD', markers on a final unterminated line, filler so that a marker straddles offsets 8170-8200 = the BufReader / copy buffer edge), random bytes and patterned data up to 40 KiB, and UTF-8 text. Read schedules: a custom Read delivering generated chunk sizes (1 byte, 1-17, 1-9000, exactly 8192) with Interrupted errors at generated points; the fault stream adds one hard error (any of 12 kinds: Other, UnexpectedEof, BrokenPipe, PermissionDenied, WouldBlock, TimedOut, ConnectionReset, InvalidData, InvalidInput, NotFound, WriteZero, OutOfMemory) at any point of the sequence. Oracle per algorithm (all six): hash_file(reader) = M-hash(bytes) as lower-case hex of the right length; hash_patch(reader) = M-hash(patch_filter(bytes)); hash_str(s) = the same digest for UTF-8 inputs; when the reader delivered a hard error the result must be Err(Io(that kind)). Enumerated stream: every ASCII case variant of the six names parses to the right algorithm, prints canonically and round-trips; 30 near-miss strings are rejected with Unsupported(input). Non-trivial = (length >= 55 and >= 3 read calls) or a '$NetBSD' marker within 8 bytes of a read boundary or an injected hard error was delivered. Distinct = distinct cases.",
         assumptions: vec![
             "M-hash (six algorithms re-implemented from their specifications) is checked against the published test vectors at start and was cross-checked against Python hashlib at development time",
             "the hard error counts only if the reader actually delivered it (a reader that has reached EOF is not read again)",
